@@ -537,7 +537,89 @@ def lazy_worker(args):
     return hutil.export(chk)
 
 
+ENUM_REPLAY = r"""
+# Replay for C12: the integer type of an enum in an API-mode module is the C compiler's, also for a typedef'd anonymous enum
+# whose real definition has enumerators the cdef does not list.
+import sys, os, tempfile, atexit, shutil, importlib
+import cffi
+d = tempfile.mkdtemp(); atexit.register(shutil.rmtree, d, True)
+sys.path.insert(0, d)
+ffi = cffi.FFI()
+ffi.cdef("typedef enum { LV_A, LV_B, ... } level_t; typedef enum { PK_A, PK_B } packed_t; enum named_e { NM_A, NM_B, ... }; "
+         "int sizeof_level(void); int sizeof_packed(void); int sizeof_named(void); level_t lowest(void);")
+ffi.set_source('_c12_enum_replay',
+    "typedef enum { LV_LOW = -5, LV_A = 0, LV_B = 1 } level_t;\n"
+    "typedef enum { PK_A, PK_B } __attribute__((packed)) packed_t;\n"
+    "enum named_e { NM_A, NM_B, NM_BIG = 0x100000000LL };\n"
+    "static int sizeof_level(void) { return sizeof(level_t); }\n"
+    "static int sizeof_packed(void) { return sizeof(packed_t); }\n"
+    "static int sizeof_named(void) { return sizeof(enum named_e); }\n"
+    "static level_t lowest(void) { return LV_LOW; }\n")
+ffi.compile(tmpdir=d)
+m = importlib.import_module('_c12_enum_replay')
+ffi, lib = m.ffi, m.lib
+bad = []
+for t, f in (('level_t', lib.sizeof_level), ('packed_t', lib.sizeof_packed), ('enum named_e', lib.sizeof_named)):
+    if ffi.sizeof(t) != f():
+        bad.append('sizeof(%s) is %d for cffi and %d for the compiler' % (t, ffi.sizeof(t), f()))
+if int(ffi.cast('level_t', -5)) != -5:
+    bad.append('level_t is signed for the compiler, cast(-5) gives %d' % int(ffi.cast('level_t', -5)))
+if int(ffi.cast('int', lib.lowest())) != -5:
+    bad.append('a C function returning LV_LOW (-5) gives %r' % (lib.lowest(),))
+for b in bad: print('VIOLATED:', b)
+sys.exit(1 if bad else 0)
+"""
+
+
+def enumsrc_worker(args):
+    """where the generated C module gets an enum's size and signedness from: whenever the enum has a C name (a tag, or the
+    typedef name of an anonymous enum) it must be the compiler (sizeof(name), ((name)-1) <= 0), never a guess from the
+    enumerators the cdef happens to list.  Structural check on the real Recompiler's table (concrete), replayed by compiling."""
+    prop, tier, kind = args
+    chk = hutil.sub_check(prop, tier)
+    sys.path.insert(0, os.path.join(common.REPO, 'src'))
+    import cffi
+    from cffi import recompiler
+    label = 'enum-size-source'
+    ffi = cffi.FFI()
+    ffi.cdef("enum named_e { NM_A, NM_B }; typedef enum { TD_A, TD_B } tdef_t; typedef enum { PT_A, PT_B, ... } part_t; "
+             "typedef enum tagged_e { TG_A = -1 } tagged_t; struct holder { enum { AN_A, AN_B } anon_field; };")
+    r = recompiler.Recompiler(ffi, '_c12_enumsrc', target_is_python=False)
+    r.collect_type_table()
+    r.collect_step_tables()
+    want = {'named_e': ['enum named_e'], '$tdef_t': ['tdef_t'], '$part_t': ['part_t'], 'tagged_e': ['tagged_t', 'enum tagged_e']}
+    problems, seen = [], set()
+    for e in r._lsts['enum']:
+        seen.add(e.name)
+        cnames = want.get(e.name)
+        if cnames is None:
+            continue           # an enum without any C name: nothing to ask the compiler about
+        ok_size = str(e.size) in ['sizeof(%s)' % c for c in cnames]
+        ok_sign = str(e.signed) in ['((%s)-1) <= 0' % c for c in cnames]
+        if not (ok_size and ok_sign):
+            problems.append('enum %r (C name %r): size taken from %r, signedness from %r' % (e.name, cnames[0], e.size, e.signed))
+    for n in want:
+        if n not in seen:
+            problems.append('enum %r missing from the table' % n)
+    chk.witness(label)
+    if problems:
+        chk.query(label + ':size-and-sign-come-from-the-compiler', 'sat', 0.0, detail='; '.join(problems)[:300])
+        path = chk.write_replay('enumsrc', ENUM_REPLAY)
+        try:
+            rc, out = common.run_replay(path, timeout=600)
+            ok = common.replay_verdict(rc, out)
+        except Exception:
+            ok = None
+        chk.report_failure('%s: %s' % (label, '; '.join(problems)), {}, path, ok)
+    else:
+        chk.query(label + ':size-and-sign-come-from-the-compiler', 'unsat', 0.0)
+    chk.functions = [{'name': 'Recompiler._enum_ctx', 'file': 'src/cffi/recompiler.py'}]
+    return hutil.export(chk)
+
+
 def dispatch(args):
+    if args[2] == 'enumsrc':
+        return enumsrc_worker(args)
     return {'lazy': lazy_worker, 'arraylen': arraylen_worker, 'const': const_worker, 'struct': struct_worker, 'detect': detect_worker}[args[2]](args)
 
 
@@ -557,12 +639,14 @@ def run(chk):
         cases.append(P + ('struct', N, False))
     cases.append(P + ('detect',))
     cases.append(P + ('lazy',))
+    cases.append(P + ('enumsrc',))
     chk.bounds = {'integer constants': '%d integer types x cdef values %r x every compiler value; unchecked constants of every type' % (len(CTYPES), CDEF_VALUES),
                   'constants as array lengths': 'parse_c_type("int[K]") for 6 of the types x cdef values / unchecked x every compiler value',
                   'struct checks': '0..%d primitive fields of symbolic size, every compiler-reported offset (<= 4096), sizeof, alignof' % (2 if quick else 5)}
     chk.outside = ['functions and global variables of the module (call plumbing: C13), import machinery',
                    'structs with several fields in do_realize_lazy_struct (one loop body per field)',
-                   'enum constants (same _cffi_const_ generator; the enum family is compiled but only constants are executed)']
+                   'enum constants (same _cffi_const_ generator; the enum family is compiled but only constants are executed); where an enum\'s '
+                   'size/signedness comes from is a structural check on the generator (enum-size-source), not a solver query']
     chk.assume('the module is generated at run time by the working tree\'s Recompiler; the C compiler\'s values are symbolic memory')
     irgen.backend()
     generated_module()
